@@ -293,8 +293,9 @@ def model_loc2(case, obs):
         if kill.get("in_handler"):  # called from `except SystemExit`: second invocation
             return "herr:" + _herr_stage(pre, kill, 2)
         return "hnd:" + _herr_stage(pre, kill, 1)  # running as the signal handler, on top of the body frame
-    # the handler is over, SystemExit(1) is in flight or the except clause has not called handle_error yet
-    return "herr:" + _herr_first()
+    if kill.get("in_try") and not kill.get("in_handler"):
+        return "raised1"  # the handler is over, its SystemExit(1) is in flight inside the try body
+    return "herr:" + _herr_first()  # in the except clause, handle_error not called yet
 
 
 def model_loc(case, obs):
